@@ -198,7 +198,94 @@ def chk_derivation(rng):
         [C.ConstraintsIntersection(C.ValueRangeConstraint(0, 9)), C.ConstraintsUnion(C.SingleValueConstraint(2), C.SingleValueConstraint(30))],
         [C.ConstraintsExclusion(C.SingleValueConstraint(4)), C.ValueRangeConstraint(2, 6)],
         [C.SingleValueConstraint(2, 9), C.ValueRangeConstraint(2, 9)],
+        # longer chains: every ancestor is a supertype, not only the parent
+        [C.ValueRangeConstraint(0, 100), C.ValueRangeConstraint(10, 50), C.SingleValueConstraint(20, 30),
+         C.SingleValueConstraint(20)],
+        [C.ValueRangeConstraint(-3, 12), C.ContainedSubtypeConstraint(C.SingleValueConstraint(1, 2, 3, 6), 9, 18),
+         C.ValueRangeConstraint(2, 9)],
     ]
+    # a type constructed directly with a union as its subtypeSpec, then derived: the derived type admits no more than it
+    for first in (C.ConstraintsUnion(C.SingleValueConstraint(1)), C.ConstraintsUnion(C.ValueRangeConstraint(0, 3),
+                                                                                      C.SingleValueConstraint(7))):
+        n += 1
+        P0 = univ.Integer(subtypeSpec=first)
+        D0 = P0.subtype(subtypeSpec=C.SingleValueConstraint(2, 7))
+        for v in INTS:
+            pa = da = True
+            try:
+                P0.clone(v)
+            except perror.PyAsn1Error:
+                pa = False
+            try:
+                D0.clone(v)
+            except perror.PyAsn1Error:
+                da = False
+            if da and not pa:
+                fails.append(rec('derivation', 'type derived from a union-constrained type admits %d, its parent does not' % v,
+                                 kind='subset'))
+    # types whose constraints have the same operands but are of different kinds are different types
+    n += 1
+    A1, B1 = univ.Integer(subtypeSpec=C.SingleValueConstraint(1, 5)), univ.Integer(subtypeSpec=C.ValueRangeConstraint(1, 5))
+    try:
+        if A1.isSameTypeWith(B1) or A1.isSuperTypeOf(B1):
+            fails.append(rec('derivation', 'INTEGER (1 | 5) takes INTEGER (1..5) for the same type / a subtype: the value 3 '
+                                           'could be assigned to it', kind='kinds'))
+    except Exception as e:
+        fails.append(rec('derivation', 'comparing (1 | 5) with (1..5) raised %s' % type(e).__name__, kind='kinds'))
+    # an operand of a union is a subset of the union, not a superset
+    n += 1
+    a5 = C.SingleValueConstraint(5)
+    u5 = C.ConstraintsUnion(a5, C.ValueRangeConstraint(1, 3))
+    if a5.isSuperTypeOf(u5) or not u5.isSuperTypeOf(a5) and False:
+        fails.append(rec('derivation', 'SingleValueConstraint(5).isSuperTypeOf(ConstraintsUnion(that, 1..3)) is True: the union '
+                                       'admits 2, which (5) does not', kind='union-bookkeeping'))
+    # WITH COMPONENTS { id PRESENT, name ABSENT }: presence is about members being set -- whatever their value (0, FALSE and
+    # the empty string are values) and whether or not an unset member has been read before
+    class Item(univ.Sequence):
+        componentType = namedtype.NamedTypes(namedtype.OptionalNamedType('id', univ.Integer()),
+                                             namedtype.OptionalNamedType('name', univ.OctetString()),
+                                             namedtype.OptionalNamedType('flag', univ.Boolean()))
+        subtypeSpec = C.WithComponentsConstraint(('id', C.ComponentPresentConstraint()), ('name', C.ComponentAbsentConstraint()),
+                                                 ('flag', C.ComponentAbsentConstraint()))
+    for idv in (None, 0, 5):
+        for namev in (None, b'', b'x'):
+            for flagv in (None, False):
+                for read_first in (False, True):
+                    n += 1
+                    it = Item()
+                    if idv is None and namev is None and flagv is None:
+                        it.clear()
+                    if idv is not None:
+                        it['id'] = idv
+                    if namev is not None:
+                        it['name'] = namev
+                    if flagv is not None:
+                        it['flag'] = flagv
+                    if read_first:
+                        try:
+                            it['id'], it['name'], it['flag'], list(it.values())
+                        except Exception:
+                            pass
+                    want_ok = idv is not None and namev is None and flagv is None
+                    try:
+                        de.encode(it)
+                        got_ok = True
+                    except perror.PyAsn1Error:
+                        got_ok = False
+                    if got_ok != want_ok:
+                        fails.append(rec('derivation', 'WITH COMPONENTS {id PRESENT, name ABSENT, flag ABSENT}: value with id=%r name=%r '
+                                                       'flag=%r%s is %s by the encoder' % (idv, namev, flagv, ' (members read before)' if
+                                                                                           read_first else '',
+                                                                                           'accepted' if got_ok else 'refused'),
+                                         kind='with-components'))
+    # the legacy sizeSpec argument adds to the subtypeSpec
+    n += 1
+    ss = univ.SequenceOf(componentType=univ.Integer(), subtypeSpec=C.ConstraintsIntersection(C.ValueSizeConstraint(0, 1)),
+                         sizeSpec=C.ValueSizeConstraint(0, 5))
+    ss.extend([1, 2, 3])
+    if not ss.isInconsistent:
+        fails.append(rec('derivation', 'SequenceOf(subtypeSpec=SIZE(0..1), sizeSpec=SIZE(0..5)) holds 3 elements without '
+                                       'being inconsistent', kind='sizeSpec'))
     for chain in chains:
         for tagged in (False, True):
             types = [T0]
@@ -218,6 +305,15 @@ def chk_derivation(rng):
                     rel = 'raised %s' % type(e).__name__
                 if rel is not True:
                     fails.append(rec('derivation', 'parent.isSuperTypeOf(child) is %r for %s' % (rel, desc), kind='isSuperTypeOf'))
+                for j in range(i):
+                    n += 1
+                    try:
+                        rel = types[j].isSuperTypeOf(child)
+                    except Exception as e:
+                        rel = 'raised %s' % type(e).__name__
+                    if rel is not True:
+                        fails.append(rec('derivation', 'ancestor %d .isSuperTypeOf(descendant %d) is %r for %s' % (
+                            j, i + 1, rel, desc), kind='isSuperTypeOf'))
                 # subset of admitted values
                 for v in INTS:
                     n += 1
